@@ -1,5 +1,10 @@
 #include "genlib.h"
+#include <stdlib.h>
 #include LHNEW_FILE
+
+static size_t no_input(void *buf, size_t buf_len, void *user_data) { (void) buf; (void) buf_len; (void) user_data; return 0; }
+static int all_bytes(const uint8_t *p, size_t n, uint8_t v) { size_t i; for (i = 0; i < n; ++i) if (p[i] != v) return 0; return 1; }
+static int all_leaf(const TreeElement *t, size_t n) { size_t i; for (i = 0; i < n; ++i) if (t[i] != TREE_NODE_LEAF) return 0; return 1; }
 
 #define P(name, val) printf("def %s%s : Nat := %llu\n", LHNEW_PREFIX, name, (unsigned long long) (val))
 
@@ -27,6 +32,17 @@ int main(void)
 #else
 	P("Lhark", 0);
 #endif
+	{
+		// the state right after the decoder's own init function ran on zeroed memory
+		LHANewDecoder *st = calloc(1, sizeof(LHANewDecoder));
+		P("InitOk", lha_lh_new_init(st, no_input, NULL) != 0);
+		P("InitRingAllSpaces", all_bytes(st->ringbuf, sizeof(st->ringbuf), ' '));
+		P("InitRingPos", st->ringbuf_pos);
+		P("InitBlockRemaining", st->block_remaining);
+		P("InitTreesAllLeaf", all_leaf(st->code_tree, sizeof(st->code_tree) / sizeof(TreeElement))
+		                      && all_leaf(st->offset_tree, sizeof(st->offset_tree) / sizeof(TreeElement))
+		                      && all_leaf(st->temp_tree, sizeof(st->temp_tree) / sizeof(TreeElement)));
+	}
 #ifdef DECODER2_NAME
 	P("2ExtraSize", DECODER2_NAME.extra_size);
 	P("2MaxRead", DECODER2_NAME.max_read);
